@@ -377,20 +377,7 @@ func (c *Ctx) runStoreTraces(nTraces int, o traceGenOpts, purpose string) {
 	w.Flush()
 	f.Close()
 	lines := countLines(path)
-	cfg := `INIT TraceInit
-NEXT TraceNext
-CONSTANTS
-  Slots <- TSlots
-  Keys = {0}
-  Q = 64
-  Weights = {0}
-  Repeats = {1}
-  Factors = {}
-  Ops = {}
-  InitStores = 0
-INVARIANTS Match Bounded LayoutOK
-CHECK_DEADLOCK FALSE
-`
+	cfg := traceStoreCfg
 	res := c.runTLC(TLCOpts{Module: "Trace_Store", Cfg: cfg, Purpose: "trace validation " + purpose, Workers: 1,
 		Env: []string{"VERIF_TRACE=" + path}, Timeout: 60 * time.Minute,
 		Constants: fmt.Sprintf("%d traces x %d events, kinds=%v limits=%v ops=%v Q=%d", nTraces, o.Events, o.Kinds, o.Limits, o.Ops, traceQ)})
